@@ -520,6 +520,10 @@ func ruleGoroutines(w *World, r *Report, rule string) {
 			if isMethodCall(c, "golang.org/x/sync/errgroup", "Group", "Wait") {
 				wait = c
 			}
+			if isMethodCall(c, "golang.org/x/sync/errgroup", "Group", "TryGo") {
+				r.Violate(rule, funcName(f)+":started", w.instrPos(c), "a worker is handed to TryGo, which does not start it when the group's limit is reached and says so only in a result nobody reads: the slot that worker was to fill stays empty (a nil header or series the parent then uses)")
+				continue
+			}
 			if !isMethodCall(c, "golang.org/x/sync/errgroup", "Group", "Go") {
 				continue
 			}
